@@ -6,7 +6,7 @@ from common import Broken, sh
 
 ASSUMPTIONS = [
     "transaction amounts are in OLT (NETWORK_UNDELEGATE / reward transactions in an unknown currency end in logger.Fatal = process "
-    "exit, design observation E6; such inputs are excluded from generation and from the model)",
+    "exit, design observation E6; such inputs are excluded from generation and from the model and are never run in-process)",
     "reward accrual per delegator and block (handleDelegationRewards) is an INPUT of the model: the theorems hold for every accrual; "
     "the harness feeds the accrual it observes (the reward formula belongs to C13)",
     "the fee charged to the signer of a successful transaction is an input of the model (gasUsed x price as reported by DeliverTx); "
@@ -19,10 +19,13 @@ ASSUMPTIONS = [
     "(checked by the correspondence: any other writer would show up as a model mismatch)",
 ]
 
-T_COLL = "C12.pending_height_prefix_collision"
-T_NEGDON = "C12.negative_pool_donation"
+T_NEGUND = "C12.negative_undelegate"
+T_NEGRW = "C12.negative_reward_withdrawal"
+T_NEGRI = "C12.negative_reinvest"
 CLASSES = {1: "pool-below-sum-of-active", 2: "pool-differs-from-sum-of-active-without-donation",
-           3: "beginblock-credit-differs-from-amount-due-at-this-height", 4: "negative-reward-balance"}
+           3: "beginblock-credit-differs-from-amount-due-at-this-height", 4: "negative-reward-balance",
+           5: "beginblock-pays-negative-matured-undelegation", 6: "beginblock-pays-negative-matured-reward-withdrawal",
+           7: "negative-delegator-balance", 8: "negative-active-delegation"}
 
 
 def evaluate(ctx, vh, args, tag="c12"):
@@ -44,7 +47,7 @@ def evaluate(ctx, vh, args, tag="c12"):
         b = common.parse_print(cout, "MON")
         mon += [(b[i], b[i + 1], b[i + 2]) for i in range(0, len(b), 3)]
         t = common.parse_print(cout, "TR")
-        tr += [(t[i], t[i + 1]) for i in range(0, len(t), 2)]
+        tr += [(t[i], t[i + 1], t[i + 2]) for i in range(0, len(t), 3)]
     return rep, cases, mm, mon, tr
 
 
@@ -61,31 +64,38 @@ def payload(c, step, cl=None):
 
 def judge(ctx, cases, mm, mon, tr):
     """Returns stats.  Monitor failures are judged first (they are failing inputs on the implementation)."""
-    stats = {"known_collision_cases": set(), "known_negdon_cases": set(), "violating_cases": set()}
+    stats = {"known_negund_cases": set(), "known_negrw_cases": set(), "known_negri_cases": set(), "violating_cases": set()}
     seen = set()
     for (ci, step, cl) in mon:
         if (ci, cl) in seen:
             continue
         seen.add((ci, cl))
-        coll, negdon = tr[ci]
-        if cl == 3 and coll and ctx.known_finding(T_COLL, ""):
-            stats["known_collision_cases"].add(ci)
-            continue
-        if cl in (1, 2) and negdon and ctx.known_finding(T_NEGDON, ""):
-            stats["known_negdon_cases"].add(ci)
+        negund, negrw, negri = tr[ci]
+        known = False
+        if cl in (5, 7) and negund and ctx.known_finding(T_NEGUND, ""):
+            stats["known_negund_cases"].add(ci)
+            known = True
+        if cl in (6, 7) and negrw and ctx.known_finding(T_NEGRW, ""):
+            stats["known_negrw_cases"].add(ci)
+            known = True
+        # a negative reinvestment stores a negative active entry and drains the pool: the pool then no longer
+        # covers the other delegators (class 1 can follow once that entry is gone again); a negative active entry
+        # also accrues NEGATIVE rewards (share = rewards * active / pool), so a reward balance can go negative (class 4)
+        if cl in (8, 1, 4) and negri and ctx.known_finding(T_NEGRI, ""):
+            stats["known_negri_cases"].add(ci)
+            known = True
+        if known:
             continue
         stats["violating_cases"].add(ci)
         if ctx.violations < 3:
             ctx.violation("%s_%d" % (cases[ci]["spec"]["name"], step), payload(cases[ci], step, cl))
     bad_mm = []
     for (ci, step) in mm:
-        coll, negdon = tr[ci]
+        negund, negrw, negri = tr[ci]
         mon_here = [m for m in mon if m[0] == ci]
         # inside a known trigger region the implementation may also satisfy the property (a repaired tree):
         # the defective model then differs, the monitor is clean
-        if coll and not any(m[2] == 3 for m in mon_here):
-            continue
-        if negdon and not any(m[2] in (1, 2) for m in mon_here):
+        if (negund or negrw or negri) and not any(m[2] in (4, 5, 6, 7, 8) for m in mon_here):
             continue
         bad_mm.append((ci, step))
     if bad_mm and not stats["violating_cases"]:
@@ -93,6 +103,21 @@ def judge(ctx, cases, mm, mon, tr):
         raise Broken("correspondence Deleg.v vs the application broke (model and implementation differ) and the property monitor "
                      "found no failing input", json.dumps(payload(cases[ci], step)))
     return stats
+
+
+def extra_specs(ctx):
+    """Recorded findings (known and fixed alike) and the corpus run as ordinary cases: for a fixed finding the
+    property must HOLD on its replay (any monitor failure there is a VIOLATION with that replay as the history)."""
+    import glob
+    specs = []
+    for f in sorted(glob.glob(os.path.join(common.VERIF, "findings", "C12_*.json"))):
+        specs.append(json.load(open(f))["spec"])
+    corpus = os.path.join(common.VERIF, "corpus", "C12.json")
+    if os.path.exists(corpus):
+        specs += json.load(open(corpus))
+    path = os.path.join(ctx.scratch, "c12_extra.json")
+    json.dump(specs, open(path, "w"))
+    return path, len(specs)
 
 
 def run(ctx):
@@ -106,15 +131,14 @@ def run(ctx):
         args = ["-seed", str(ctx.seed), "-n", "160", "-blocks", "40", "-long", "12", "-shard", "6"]
     else:
         args = ["-seed", str(ctx.seed), "-n", "22", "-blocks", "32", "-long", "1", "-shard", "2"]
-    extra = os.path.join(common.VERIF, "corpus", "C12.json")
-    if os.path.exists(extra):
-        args += ["-extra", extra]
+    extra, nextra = extra_specs(ctx)
+    args += ["-extra", extra]
     rep, cases, mm, mon, tr = evaluate(ctx, vh, args)
     cov = ctx.coverage
     cov.update({
         "evaluations": rep["steps"], "distinct_nontrivial": rep["distinct_cases"],
         "rule": "whole-application runs (real app.App through ABCI): fixed witnesses + corpus + seeded random histories over 3-4 delegators, "
-                "4 genesis variants (empty / pending undelegations at decimal-prefix-colliding heights 1|1x 2|2x 3|3x 12|12x / active+rewards+"
+                "4 genesis variants (empty / pending undelegations at decimal-prefix-related heights 1|1x 2|2x 3|3x 12|12x / active+rewards+"
                 "pending reward withdrawals / both), up to 4 transactions per block with repeated delegators, amounts chosen relative to "
                 "the observed active / reward balance (all, all+1, part, one, small, negative, too much); evaluations = ABCI steps "
                 "(BeginBlock or DeliverTx) whose full projected state was compared with the model; distinct = distinct (genesis, history)",
@@ -125,20 +149,22 @@ def run(ctx):
         "blocks_with_two_ops_by_one_delegator": rep["blocks_with_two_ops_by_one_delegator"],
         "alien_keys": rep["alien_keys"],
         "model_mismatches": len(mm), "monitor_failures": len(mon),
-        "cases_in_collision_trigger_region": sum(1 for t in tr if t[0]),
-        "cases_in_negative_donation_trigger_region": sum(1 for t in tr if t[1]),
+        "cases_in_negative_undelegate_trigger_region": sum(1 for t in tr if t[0]),
+        "cases_in_negative_reward_withdrawal_trigger_region": sum(1 for t in tr if t[1]),
+        "cases_in_negative_reinvest_trigger_region": sum(1 for t in tr if t[2]),
+        "finding_replays_and_corpus_cases_run": nextra,
         "samples": rep["samples"],
         "explanation": "theorems of props/C12.v re-checked; Deleg.v evaluated by vm_compute on every recorded step of the real application "
                        "(model_mismatches must be 0); monitor = DelegCheck.v predicates on the implementation's observations: pool >= sum "
-                       "active (= without donations), BeginBlock credit of every delegator = amount due at that height, reward balances >= 0",
+                       "active (= without donations), BeginBlock credit of every delegator = amount due at that height, matured payments >= 0, "
+                       "reward balances and delegator balances >= 0; the replays of all recorded findings run as cases",
     })
     if rep["alien_keys"]:
         raise Broken("delegation keys of addresses outside the cast appeared", "")
     stats = judge(ctx, cases, mm, mon, tr)
     cov["monitor_failures_by_class"] = {CLASSES[k]: sum(1 for m in mon if m[2] == k) for k in CLASSES}
-    cov["known_finding_cases"] = {T_COLL: len(stats["known_collision_cases"]), T_NEGDON: len(stats["known_negdon_cases"])}
-    # witness replay (2.3 C): the first witness is the recorded collision; it must either still violate (known) or conform
-    cov["witness_collision_still_violates"] = any(m[0] == 0 and m[2] == 3 for m in mon)
+    cov["known_finding_cases"] = {T_NEGUND: len(stats["known_negund_cases"]), T_NEGRW: len(stats["known_negrw_cases"]),
+                                  T_NEGRI: len(stats["known_negri_cases"])}
     if broken is not None and ctx.violations == 0:
         raise broken
 
@@ -153,5 +179,5 @@ def replay(ctx, rp):
     rep, cases, mm, mon, tr = evaluate(ctx, vh, ["-corpus", tmp], tag="replay")
     print("model_mismatches (case, step)", mm)
     print("monitor failures (case, step, class)", [(a, b, CLASSES.get(c, c)) for a, b, c in mon])
-    print("triggers (collision, negative donation)", tr)
+    print("triggers (negative undelegate, negative reward withdrawal, negative reinvest)", tr)
     judge(ctx, cases, mm, mon, tr)
